@@ -143,7 +143,7 @@ def run_check(tier, seed):
         f2, b2 = oa.analyse_free(PROP, free, fobs)
         findings.extend(f2); broken.extend(b2)
         stats['restarts'] += sum(len(c['ops']) + 1 for c in free); stats['evals'] += sum(len(c['ops']) + 1 for c in free)
-        cells = oa.cell_cases(PROP, True, full=(tier == 'thorough'), cells=(None if tier == 'thorough' else ['wdkx', 'm'])) + oa.bigdir_cases(PROP, True)
+        cells = oa.cell_cases(PROP, True, full=(tier == 'thorough'), cells=(None if tier == 'thorough' else ['wdkx', 'm'])) + oa.bigdir_cases(PROP, True) + oa.root_cases(PROP, True)
         cobs = oc.run_harness(cells, bindir, 'c11g')
         good = [c for c in cells if cobs.get(c['id']) and cobs[c['id']].get('done') and not cobs[c['id']]['flags'] and len(cobs[c['id']]['ops']) == len(c['ops'])
                 and all(oc.ser(t) == cobs[c['id']]['raw'].get(k) for k, t in c['layers'].items())]
